@@ -91,6 +91,11 @@ const c13Root = `{"$id":"http://h/strict.json","$dynamicAnchor":"node","$ref":"t
 // required lists of 3 and 6 names (JSON-decoded: spare capacity behind them) next to dependentRequired with different lists
 const c13Dep = `{"properties":{"dep":{"required":["r1","r2","r3"],"dependentRequired":{"t1":["p","r1"],"t2":["q"],"t3":["p","q","z"]},
   "properties":{"deep":{"required":["a","b","c","d","e","f"],"dependentRequired":{"x":["y"],"y":["x","w"]}}}}}}`
+const c13Def = `{"type":"object","properties":{
+  "cfg":{"type":"object","default":{"host":"h","tags":["a","b"]},"properties":{"host":{"type":"string"},"port":{"default":80},"tags":{"type":"array"},
+     "tls":{"type":"object","default":{"on":true},"properties":{"on":{"type":"boolean"},"ciphers":{"default":["x",{"y":1}]}}}}},
+  "list":{"default":[1,2,{"k":"v"}]},"n":{"default":1},"s":{"default":"str"},"nul":{"default":null},
+  "m":{"properties":{"deep":{"properties":{"leaf":{"default":{"a":{"b":[]}}}}}}}}}`
 const c13Dep7 = `{"$schema":"http://json-schema.org/draft-07/schema#","required":["r1","r2","r3"],"dependencies":{"t1":["p"],"t2":["q","r2"],"t3":{"required":["s"]}}}`
 const c13D7 = `{"$schema":"http://json-schema.org/draft-07/schema#","definitions":{"p":{"$id":"#pos","type":"integer","minimum":0}},"items":[{"$ref":"#pos"},{"type":"string"}],"additionalItems":{"$ref":"#pos","maximum":-1},"dependencies":{"a":["b"],"c":{"required":["d"]}}}`
 
@@ -144,6 +149,15 @@ func (c13) Run(c *fw.Case) {
 	if err != nil {
 		panic("c13 dep7 schema: " + err.Error())
 	}
+	// defaults of every JSON type (objects and arrays included, nested defaults below an object default), resolved with
+	// ValidateDefaults: whatever Resolve keeps from checking the defaults is shared by all later ApplyDefaults calls
+	var defS jsonschema.Schema
+	json.Unmarshal([]byte(c13Def), &defS)
+	rsDef, err := defS.Resolve(&jsonschema.ResolveOptions{ValidateDefaults: true})
+	if err != nil {
+		panic("c13 defaults schema: " + err.Error())
+	}
+	defInsts := []string{`{}`, `{"cfg":{}}`, `{"other":1}`, `{"cfg":{"tls":{}}}`, `{"cfg":{"host":"x","tls":{"on":false}},"list":[]}`, `{"n":2,"m":{"deep":{}}}`}
 	depInsts := []any{
 		gen.Canonical(`{"dep":{"r1":1,"r2":1,"r3":1,"t1":1,"p":1}}`), gen.Canonical(`{"dep":{"r1":1,"r2":1,"r3":1,"t2":1,"q":1}}`), gen.Canonical(`{"dep":{"r1":1,"r2":1,"r3":1,"t3":1,"p":1,"q":1,"z":1}}`),
 		gen.Canonical(`{"dep":{"r1":1,"r2":1,"r3":1,"t1":1}}`), gen.Canonical(`{"dep":{"r1":1,"r2":1,"r3":1}}`), gen.Canonical(`{"dep":{"r1":1,"r2":1,"r3":1,"deep":{"a":1,"b":1,"c":1,"d":1,"e":1,"f":1,"x":1,"y":1,"w":1}}}`),
@@ -225,7 +239,36 @@ func (c13) Run(c *fw.Case) {
 				add("W1", verdict(rs, gen.Pick(r, insts)))
 			}
 		case w == 4 || (mix == 1 && w < 7): // W2: ApplyDefaults on a private instance
-			switch r.IntN(3) {
+			switch r.IntN(5) {
+			case 3, 4:
+				text := gen.Pick(r, defInsts)
+				if r.IntN(3) == 0 {
+					add("W1-def", verdict(rsDef, gen.Canonical(text)))
+					break
+				}
+				add("W2-def", func() string {
+					x := gen.Canonical(text) // a private instance
+					err := rsDef.ApplyDefaults(&x)
+					// read (and write) everything that was inserted: inserted containers must be private to this instance
+					if m, ok := x.(map[string]any); ok {
+						if cfg, ok := m["cfg"].(map[string]any); ok {
+							cfg["touched"] = true
+							if tls, ok := cfg["tls"].(map[string]any); ok {
+								tls["touched"] = true
+							}
+							if tags, ok := cfg["tags"].([]any); ok && len(tags) > 0 {
+								tags[0] = "touched"
+							}
+						}
+						if l, ok := m["list"].([]any); ok && len(l) > 2 {
+							if lm, ok := l[2].(map[string]any); ok {
+								lm["touched"] = true
+							}
+						}
+					}
+					data, _ := json.Marshal(x)
+					return fmt.Sprint(err == nil) + string(data)
+				})
 			case 0:
 				add("W2-map", func() string {
 					var x any = map[string]any{"opt": map[string]any{"z": 1}}
